@@ -4,7 +4,9 @@
 //! C08 (whatever the checker accepts must run without an internal failure).
 
 /// Ill-typed expressions that claim to be numeric.
-pub const NUM_FAULTS: [&str; 44] = [
+pub const NUM_FAULTS: [&str; 50] = [
+    // an array without subscripts is not a value
+    "ARR%", "LARR&", "ARR% + 1", "LEN(SARR$)", "(ARR%)", "Fn1%(LARR&)",
     "LEN(5)", "LEN(ZN#)", "INSTR(\"a\", 2)", "INSTR(2, \"a\")", "INSTR(1, \"abc\", 3)", "INSTR(\"x\", \"abc\", \"b\")", "INSTR(1, 2, \"b\")", "VAL(3)", "ASC(3)", "CVD(3)",
     "\"a\" + 1", "1 + \"a\"", "2 * \"a\"", "\"a\" - 1", "\"a\" / 2", "(NOT \"a\")", "(-\"a\")", "(\"a\" AND 1)", "(1 OR \"a\")", "(1 < \"a\")", "(\"a\" = 1)", "(\"a\" MOD 2)",
     "Fn1%(\"a\")", "Fn1%(1, 2)", "Fn1%(ZS$)", "Fn2%(1, \"b\")", "ARR%(\"a\")", "ARR%(ZS$)", "REC.N + \"a\"", "REC + 1", "REC.S + 1", "UBOUND(5)", "UBOUND(ARR%, \"a\")", "LBOUND(ZN#)",
@@ -12,7 +14,8 @@ pub const NUM_FAULTS: [&str; 44] = [
 ];
 
 /// Ill-typed expressions that claim to be strings.
-pub const STR_FAULTS: [&str; 30] = [
+pub const STR_FAULTS: [&str; 33] = [
+    "SARR$", "SARR$ + \"a\"", "UCASE$(SARR$)",
     "UCASE$(5)", "LCASE$(5)", "LTRIM$(5)", "RTRIM$(ZN#)", "LEFT$(5, 1)", "LEFT$(\"a\", \"b\")", "RIGHT$(5, 1)", "RIGHT$(\"a\", \"b\")", "MID$(5, 1)", "MID$(\"a\", \"b\")", "MID$(\"a\", 1, \"c\")",
     "CHR$(\"a\")", "STR$(\"a\")", "SPACE$(\"a\")", "STRING$(\"a\", 1)", "STRING$(2, REC)", "MKD$(\"a\")", "\"a\" + 5", "FnS$(5)", "FnS$(\"a\", \"b\")", "FnS$(ZN#)", "SARR$(\"a\")", "REC.S + 5",
     "ENVIRON$(5)", "ZS$ + ZN#", "UCASE$(ZS$) + 1", "LEFT$(ZS$, ZS$)", "STR$(ZS$)", "CHR$(ZS$)", "FnS$(\"a\") + 1",
@@ -27,7 +30,7 @@ pub const STMT_FAULTS: [&str; 31] = [
 ];
 
 /// Statement templates with one numeric expression hole `{e}`; several lines = a block statement.
-pub const NUM_POSITIONS: [&[&str]; 27] = [
+pub const NUM_POSITIONS: [&[&str]; 31] = [
     &["PRINT {e}"],
     &["PRINT ({e})"],
     &["PRINT 1; {e}"],
@@ -55,10 +58,14 @@ pub const NUM_POSITIONS: [&[&str]; 27] = [
     &["PRINT #1, {e}"],
     &["REDIM ZR%({e})"],
     &["ZN# = Fn2%(1, {e})"],
+    &["PRINT USING \"###\"; {e}"],
+    &["LPRINT {e}"],
+    &["LPRINT 1, {e};"],
+    &["PRINT #1, USING \"###\"; {e}"],
 ];
 
 /// Statement templates with one string expression hole.
-pub const STR_POSITIONS: [&[&str]; 17] = [
+pub const STR_POSITIONS: [&[&str]; 20] = [
     &["PRINT {e}"],
     &["PRINT ({e})"],
     &["PRINT \"x\"; {e}"],
@@ -76,6 +83,9 @@ pub const STR_POSITIONS: [&[&str]; 17] = [
     &["SARR$(1) = {e}"],
     &["PRINT #1, {e}"],
     &["ZN# = INSTR(1, \"abc\", {e})"],
+    &["PRINT USING \"!\"; {e}"],
+    &["LPRINT {e}"],
+    &["PRINT \"x\", {e};"],
 ];
 
 pub const CONTEXTS: [&str; 16] = [
@@ -273,9 +283,35 @@ pub fn fill(position: &[&str], e: &str) -> Vec<String> {
     position.iter().map(|l| l.replace("{e}", e)).collect()
 }
 
-/// Number of (fault, position) pairs: numeric faults x numeric positions, string faults x string positions, statement faults.
+/// Well-typed expressions of the WRONG type: strings where a number is required. They are placed at every numeric
+/// position except the items of PRINT / LPRINT / PRINT # lists (which take any type); reference position `ZN# = {e}`.
+pub const PLAIN_STR_AS_NUM: [&str; 7] = ["\"a\"", "ZS$", "REC.S", "SARR$(1)", "FnS$(\"a\")", "UCASE$(\"a\")", "(\"a\" + ZS$)"];
+/// Numbers where a string is required; reference position `ZS$ = {e}`.
+pub const PLAIN_NUM_AS_STR: [&str; 7] = ["5", "ZN#", "REC.N", "ARR%(1)", "Fn1%(1)", "LEN(\"a\")", "(ZN# + 1)"];
+
+fn takes_any_type(position: &[&str]) -> bool {
+    let l = position.iter().find(|l| l.contains("{e}")).unwrap();
+    // `{e}` directly as a print item (not inside a call or parentheses of its own is still a print item)
+    // (PRINT USING decides at run time whether a value suits its field)
+    (l.starts_with("PRINT") || l.starts_with("LPRINT")) && !l.contains("({e}") && !l.contains(", {e})")
+}
+
+fn strict_num_positions() -> Vec<usize> {
+    (0..NUM_POSITIONS.len()).filter(|p| !takes_any_type(NUM_POSITIONS[*p])).filter(|p| !NUM_POSITIONS[*p][0].starts_with("PRINT ({e})")).collect()
+}
+
+fn strict_str_positions() -> Vec<usize> {
+    // LEN(variable) is defined for variables of every type (its size in bytes)
+    (0..STR_POSITIONS.len()).filter(|p| !takes_any_type(STR_POSITIONS[*p])).filter(|p| !STR_POSITIONS[*p][0].starts_with("PRINT ({e})") && !STR_POSITIONS[*p][0].contains("LEN({e})")).collect()
+}
+
+const NUM_REFERENCE: usize = 4; // ZN# = {e}
+const STR_REFERENCE: usize = 3; // ZS$ = {e}
+
+/// Number of (fault, position) pairs: numeric faults x numeric positions, string faults x string positions, statement
+/// faults, wrong-type expressions x the positions that require the other type.
 pub fn pairs() -> usize {
-    NUM_FAULTS.len() * NUM_POSITIONS.len() + STR_FAULTS.len() * STR_POSITIONS.len() + STMT_FAULTS.len()
+    NUM_FAULTS.len() * NUM_POSITIONS.len() + STR_FAULTS.len() * STR_POSITIONS.len() + STMT_FAULTS.len() + PLAIN_STR_AS_NUM.len() * strict_num_positions().len() + PLAIN_NUM_AS_STR.len() * strict_str_positions().len()
 }
 
 /// (fault text, position label, statement lines, index of the reference pair of this fault) of pair `k`.
@@ -289,9 +325,41 @@ pub fn pair(k: usize) -> (String, String, Vec<String>, usize) {
         let j = k - nn;
         let (f, p) = (j / STR_POSITIONS.len(), j % STR_POSITIONS.len());
         (STR_FAULTS[f].to_string(), format!("str-position-{}:{}", p, STR_POSITIONS[p][STR_POSITIONS[p].iter().position(|l| l.contains("{e}")).unwrap()]), fill(STR_POSITIONS[p], STR_FAULTS[f]), nn + f * STR_POSITIONS.len())
-    } else {
+    } else if k < nn + ns + STMT_FAULTS.len() {
         let j = k - nn - ns;
         (STMT_FAULTS[j].to_string(), "statement".to_string(), vec![STMT_FAULTS[j].to_string()], k)
+    } else {
+        let base = nn + ns + STMT_FAULTS.len();
+        let j = k - base;
+        let np = strict_num_positions();
+        let sp = strict_str_positions();
+        let n1 = PLAIN_STR_AS_NUM.len() * np.len();
+        if j < n1 {
+            let (f, pi) = (j / np.len(), j % np.len());
+            let p = np[pi];
+            let refk = base + f * np.len() + np.iter().position(|x| *x == NUM_REFERENCE).expect("reference position is strict");
+            (PLAIN_STR_AS_NUM[f].to_string(), format!("num-position-{}:{}", p, NUM_POSITIONS[p][NUM_POSITIONS[p].iter().position(|l| l.contains("{e}")).unwrap()]), fill(NUM_POSITIONS[p], PLAIN_STR_AS_NUM[f]), refk)
+        } else {
+            let j = j - n1;
+            let (f, pi) = (j / sp.len(), j % sp.len());
+            let p = sp[pi];
+            let refk = base + n1 + f * sp.len() + sp.iter().position(|x| *x == STR_REFERENCE).expect("reference position is strict");
+            (PLAIN_NUM_AS_STR[f].to_string(), format!("str-position-{}:{}", p, STR_POSITIONS[p][STR_POSITIONS[p].iter().position(|l| l.contains("{e}")).unwrap()]), fill(STR_POSITIONS[p], PLAIN_NUM_AS_STR[f]), refk)
+        }
+    }
+}
+
+#[cfg(test)]
+mod tests {
+    use super::*;
+    #[test]
+    fn reference_positions() {
+        assert_eq!(NUM_POSITIONS[NUM_REFERENCE][0], "ZN# = {e}");
+        assert_eq!(STR_POSITIONS[STR_REFERENCE][0], "ZS$ = {e}");
+        for k in 0..pairs() {
+            let (_, _, _, r) = pair(k);
+            assert!(r < pairs());
+        }
     }
 }
 
